@@ -187,6 +187,8 @@ class Builder:
             deck.tags.add('cells.unordered')
         if self.rng.random() < 0.3:
             M.shuffle_options(deck, self.rng)
+        if self.rng.random() < 0.3:
+            M.vary_largest_surface(deck, self.rng)
         return deck
 
 
